@@ -397,3 +397,28 @@ LS_CONTRACTS = {
 u = unit("transcript.transcript_label_static", T, "transcript_label_static", [("label", sym("label"))], c_label_static, out_all,
          trace_only=True, tracked=("label", "leaked", "cached"))
 u.extra_contracts = LS_CONTRACTS
+
+
+# ------------------------------------------------------------------ Verifier::new
+CONTRACTS["EvaluationDomain::new"] = lambda it, recv, a: ("fallible", "EvaluationDomain::new => Err(InvalidEvalDomainSize)", VOpaque("domain_of", [a[0]]))
+CONTRACTS[".pow"] = lambda it, recv, a: VOpaque("pow", [recv, a[0]])
+
+
+def c_verifier_new(it, recv, a):
+    """domain = EvaluationDomain::new(vk.n); one precomputed root omega^{-idx} per public-input row, in the given order;
+    the stored transcript is Transcript::base(label, vk, constraints)."""
+    label, vk, ok, idxs, size, constraints = a
+    it.ctx.exits.append(("try", "EvaluationDomain::new => Err(InvalidEvalDomainSize)"))
+    domain = VOpaque("domain_of", [Sym(vk.path + ".n")])
+    ginv = Sym(domain.canon() + ".group_gen_inv")
+    root = VOpaque("pow", [ginv, VArr([Sym(idxs.path + "[*]"), 0, 0, 0], "array")])
+    roots = VOpaque("collected", [Sym(VOpaque("map_each", [idxs, root]).canon())])
+    tr = base_events(it, label, vk, constraints, False)
+    return VOk(VStruct("Self", {"label": label, "verifier_key": vk, "opening_key": ok, "public_input_indexes": idxs,
+                                "public_input_roots": roots, "domain": domain, "transcript": tr, "size": size, "constraints": constraints}))
+
+
+unit("verifier.new", VF, "Verifier::new",
+     [("label", sym("label")), ("verifier_key", sym("verifier_key")), ("opening_key", sym("opening_key")),
+      ("public_input_indexes", sym("public_input_indexes")), ("size", sym("size")), ("constraints", sym("constraints"))],
+     c_verifier_new, out_verify)
